@@ -1,6 +1,6 @@
 """C04 — fuzzy ranking quality (structural clauses: early-exit soundness, prefix-bonus additivity)."""
 from cfg import Inconclusive, op_place, show, walk, strip_casts
-from common import (calls_to, callee, field_chain, fn_of, get_fn, peel, site, guards_of, ret_aggregates,
+from common import (config_effects, calls_to, callee, field_chain, fn_of, get_fn, peel, site, guards_of, ret_aggregates,
                     field_reads, field_assigns)
 
 PROP = "C04"
@@ -17,28 +17,38 @@ _FACTS = [None]
 
 
 def constructible_configs(ctx):
+    """Config values reachable through the public API: DEFAULT, and DEFAULT transformed by every function of the
+    crate that produces/overwrites a Config (found by what they do: field stores or Config literals)."""
     facts = ctx.facts
     d = dict(facts.const(M, "config::Config::DEFAULT")["value"])
     cfgs = [("DEFAULT", d)]
     writers = set()
     for b in facts.bodies_of(M):
         fn = fn_of(b)
+        if b["kind"] not in ("Fn", "AssocFn"):
+            continue
+        hit = False
         for fld in ("bonus_boundary_white", "bonus_boundary_delimiter"):
             if field_assigns(fn, fld, "config::Config"):
-                writers.add(fn.path)
+                hit = True
+        for bi, si, s in fn.stmts(lambda s: s["k"] == "assign" and s["rv"].get("agg") == "adt" and str(s["rv"].get("adt", "")).endswith("config::Config")):
+            hit = True
+        if hit:
+            writers.add(fn.path)
     for w in sorted(writers):
         fn = get_fn(facts, M, w)
-        c = dict(d)
-        for fld in ("bonus_boundary_white", "bonus_boundary_delimiter"):
-            for bi, si, s in field_assigns(fn, fld, "config::Config"):
-                if si == "term":
-                    raise Inconclusive("%s writes %s from a call result" % (w, fld))
-                e = fn.expr_of_rvalue(s["rv"])
-                if e[0] == "const" and isinstance(e[1], int):
-                    c[fld] = e[1]
+        for conds, final, get in config_effects(fn):
+            c = dict(d)
+            for fld in ("bonus_boundary_white", "bonus_boundary_delimiter"):
+                v = get(fld)
+                if v[0] == "const":
+                    c[fld] = v[1]
+                elif v[0] == "unchanged":
+                    pass
                 else:
-                    raise Inconclusive("%s writes %s with a non-constant %s" % (w, fld, show(e)))
-        cfgs.append((w.rsplit("::", 1)[1], c))
+                    raise Inconclusive("%s leaves %s = %s (not a constant)" % (w, fld, v))
+            if (w.rsplit("::", 1)[1], c) not in cfgs:
+                cfgs.append((w.rsplit("::", 1)[1], c))
     return cfgs, writers
 
 
